@@ -26,6 +26,7 @@ import (
 	"strings"
 	"testing"
 
+	"github.com/bfenetworks/bfe/bfe_balance/backend"
 	"github.com/bfenetworks/bfe/bfe_basic"
 	"github.com/spaolacci/murmur3"
 	"pgregory.net/rapid"
@@ -383,6 +384,7 @@ type balResult struct {
 	Backend string
 	BeSub   string
 	Err     error
+	be      *backend.BfeBackend
 }
 
 func (b balResult) String() string {
@@ -399,6 +401,7 @@ func doBalance(r *rig, req *bfe_basic.Request, retry int) balResult {
 	if b != nil {
 		res.Backend = b.AddrInfo
 		res.BeSub = b.SubCluster
+		res.be = b
 	}
 	return res
 }
